@@ -172,18 +172,25 @@ Section Trees.
   Notation num := (num A).
   Notation vec := (vec A).
 
-  (* `impl Sum for f64`: fold(-0.0, +).  rayon's SumFolder / reducer compute
-     `[l, r].into_iter().sum()` = (-0.0 + l) + r, and -0.0 + x = x for every x *)
-  Definition seq_sum (xs : list num) : num := fold_left (k_add A) xs (k_nzero A).
-  Definition sum2 (l r : num) : num := seq_sum [l; r].
-  Definition tree_sum (t : sched) (xs : list num) : num :=
-    par_fold (fun l => sum2 (seq_sum []) (seq_sum l)) sum2 t xs.
+  (* `impl Sum for f64`: fold(-0.0, +); nalgebra `impl Sum for Matrix`: fold(zero(), +).
+     rayon's SumFolder / reducer compute `[l, r].into_iter().sum()` = (z0 + l) + r
+     where z0 is the identity of the element type's `Sum` *)
+  Definition seq_sum_from (z0 : num) (xs : list num) : num := fold_left (k_add A) xs z0.
+  Definition sum2_from (z0 l r : num) : num := seq_sum_from z0 [l; r].
+  Definition tree_sum_from (z0 : num) (t : sched) (xs : list num) : num :=
+    par_fold (fun l => sum2_from z0 (seq_sum_from z0 []) (seq_sum_from z0 l)) (sum2_from z0) t xs.
+  Definition seq_sum (xs : list num) : num := seq_sum_from (k_nzero A) xs.
+  Definition tree_sum (t : sched) (xs : list num) : num := tree_sum_from (k_nzero A) t xs.
 
-  (* nalgebra `impl Sum for Matrix`: fold(zero(), +) *)
-  Definition seq_vsum (D : nat) (xs : list vec) : vec := fold_left (vadd A) xs (vzero A D).
-  Definition vsum2 (D : nat) (l r : vec) : vec := seq_vsum D [l; r].
+  (* coordinate c of every vector *)
+  Definition column (c : nat) (xs : list vec) : list num :=
+    flat_map (fun v => match nth_opt v c with Some x => [x] | None => [] end) xs.
+
+  (* `.sum::<PointND<D>>()`: nalgebra's `+` on vectors is componentwise, so the
+     tree of vector additions is, coordinate by coordinate, the same tree of
+     scalar additions starting from zero() = 0.0 *)
   Definition tree_vsum (t : sched) (D : nat) (xs : list vec) : vec :=
-    par_fold (fun l => vsum2 D (seq_vsum D []) (seq_vsum D l)) (vsum2 D) t xs.
+    map (fun c => tree_sum_from (k_zero A) t (column c xs)) (seq 0 D).
 
   (* rayon max_by / min_by = reduce_with(op) *)
   Definition max_op (a b : num) : num := match cmp_eq A a b with Gt => a | _ => b end.
@@ -202,19 +209,22 @@ Section Trees.
   Definition tree_reduce {X} (op : X -> X -> X) (t : sched) (xs : list X) : option X :=
     par_fold (seq_reduce op) (oreduce op) t xs.
 
-  (* BoundingBox::from_points *)
-  Definition bb_fold (D : nat) (xs : list vec) : vec * vec :=
-    fold_left (fun '(mins, maxs) v =>
-                 (* `for ((min, max), val) in mins.iter_mut().zip(maxs.iter_mut()).zip(&vals)` *)
-                 (upd_zip A (fun mn x => if klt A x mn then x else mn) mins v,
-                  upd_zip A (fun mx x => if klt A mx x then x else mx) maxs v))
-              xs (repeat (k_fmax A) D, repeat (k_fmin A) D).
-  Definition bb_red (l r : vec * vec) : vec * vec :=
-    (map2 (fmin2 A) (fst l) (fst r), map2 (fmax2 A) (snd l) (snd r)).
+  (* BoundingBox::from_points: `fold_with((MAX.., MIN..), |(mins, maxs), vals| ..)` then
+     `reduce_with(|l, r| (l.min(r), l.max(r)))`, coordinate by coordinate (the
+     closures treat the coordinates independently).  One accumulator per piece
+     of the split; a coordinate no vector has keeps MAX / MIN. *)
+  Definition min_step (mn x : num) : num := if klt A x mn then x else mn.   (* if *val < *min { *min = *val } *)
+  Definition max_step (mx x : num) : num := if klt A mx x then x else mx.   (* if *max < *val { *max = *val } *)
+  Definition col_leaf (step : num -> num -> num) (init : num) (l : list num) : option num :=
+    match l with [] => None | _ => Some (fold_left step l init) end.
+  Definition tree_col (step : num -> num -> num) (init : num) (red : num -> num -> num)
+                      (t : sched) (col : list num) : num :=
+    match par_fold (col_leaf step init) (oreduce red) t col with Some v => v | None => init end.
   Definition tree_bbox (t : sched) (D : nat) (xs : list vec) : option (vec * vec) :=
     match xs with
     | [] => None
-    | _ => par_fold (fun l => match l with [] => None | _ => Some (bb_fold D l) end) (oreduce bb_red) t xs
+    | _ => Some (map (fun c => tree_col min_step (k_fmax A) (fmin2 A) t (column c xs)) (seq 0 D),
+                 map (fun c => tree_col max_step (k_fmin A) (fmax2 A) t (column c xs)) (seq 0 D))
     end.
 
   (* HashMap iteration order: the oracle lists indices; indices out of range
@@ -235,8 +245,6 @@ Section Trees.
      which partial_cmp is a total order and `Equal` means identical *)
   Variable sum_ok : list num -> bool.
   Variable val_ok : num -> bool.
-  Definition column (c : nat) (xs : list vec) : list num :=
-    flat_map (fun v => match nth_opt v c with Some x => [x] | None => [] end) xs.
   Definition vsum_ok (D : nat) (xs : list vec) : bool :=
     forallb (fun v => Nat.eqb (length v) D) xs && forallb (fun c => sum_ok (column c xs)) (seq 0 D).
   Definition guard {X} (b : bool) (x : X) : res X := if b then Ok x else Panic 99.
